@@ -155,6 +155,5 @@ def run(model, rep, rule='C17.E2E', tier='quick'):
             rep.check(not worse, rule, mi.loc(), 'probe `%s`, %s: each of the %d size options on vs off' % (label, cname, len(SIZE_OPTIONS)), 'never longer',
                       '; '.join(worse[:3]), key='%s|%s|%s' % (rule, label, cname), cells=2 * len(SIZE_OPTIONS))
     rep.count('option_runs_that_shortened_the_output', shorter)
-    if shorter < 30:
-        raise AnalysisError('only %d (probe, option) pairs got shorter at all: the size rule has lost its sensitivity' % shorter)
+    rep.sensitive(shorter >= 30, 'only %d (probe, option) pairs got shorter at all: the size rule has lost its sensitivity' % shorter)
     rep.floor(rule, 10)
